@@ -855,6 +855,9 @@ func (c *Conn) WalWriteTx(prog WalTxProgram, ref *Image) TxResult {
 		return fail("shm-publish", e)
 	}
 	w.idxValid = false
+	if c.BeforeWalUnlock != nil {
+		c.BeforeWalUnlock()
+	}
 	if prog.DieBeforeUnlock {
 		salt := w.hdr.salt
 		c.Die()
